@@ -5,7 +5,7 @@
     * `FErr.riff`: never — `get_mds` only adds chunks to list chunks (`RIFF` / `LIST`);
     * `FErr.codec .atEmpty`: never — no path of `Model/MdsCodec` / `convertMacroTrack` produces it;
     * `FErr.codec .stackEmpty` and `FErr.headerWrap` are `InputError`s of the C++ since repository
-      fixes c5dd456 / 8d409a9 (both were reachable: `A 'cmd 251 2' c`; notes/c15_header_wrap.py).
+      fixes 3e0ed67 / 5952bf5 (both were reachable: `A 'cmd 251 2' c`; notes/c15_header_wrap.py).
 -/
 import Ctrmml.Model.Pipeline
 namespace Ctrmml.Pipeline
